@@ -4,6 +4,9 @@ use serde_json::{json, Value};
 use crate::ctx::Ctx;
 use crate::files::{self, LoadCase, Seed, ALL_EXTS};
 
+/// offsets from which the NUL bytes of a seed are replaced (the prefix before it - magic numbers, indicators - stays)
+const NULFREE_FROM: [usize; 7] = [0, 8, 16, 24, 32, 48, 64];
+
 /// text formats and the emulation whose grammar their loader parses
 const GRAMMAR_EXTS: [(&str, &str); 12] = [
     ("ans", "ansi"),
@@ -33,6 +36,7 @@ pub struct C02 {
     n_flip: u64,
     n_cross: u64,
     n_grammar: u64,
+    n_nulfree: u64,
     flip_offsets: Vec<Vec<usize>>,
 }
 
@@ -145,6 +149,45 @@ impl C02 {
                     origin: format!("{emu} grammar stream as .{ext}"),
                 },
                 "grammar-stream-file",
+            );
+        }
+        let k5 = k4 - self.n_grammar;
+        if k5 < self.n_nulfree {
+            // terminator scans: every 0x00 after an offset is replaced (names, tables and strings then have no end inside
+            // the file), combined with one length-like header byte set high or a cut
+            let per_seed = NULFREE_FROM.len() as u64 * (40 * 3 + 16);
+            let s = &self.seeds[(k5 / per_seed) as usize % self.seeds.len()];
+            let mut r = k5 % per_seed;
+            let from = NULFREE_FROM[(r % NULFREE_FROM.len() as u64) as usize];
+            r /= NULFREE_FROM.len() as u64;
+            let mut bytes = s.bytes.clone();
+            for b in bytes.iter_mut().skip(from) {
+                if *b == 0 {
+                    *b = 0xFF;
+                }
+            }
+            let what;
+            if r < 40 * 3 {
+                // a length-like byte in the 40 bytes that follow the untouched prefix
+                let (o, v) = (from + (r / 3) as usize, [0xFFu8, 0xD1, 0x80][(r % 3) as usize]);
+                if o < bytes.len() {
+                    bytes[o] = v;
+                }
+                what = format!("byte@{o} := {v:#x}");
+            } else {
+                let i = (r - 40 * 3) as usize;
+                let cut = bytes.len() * (i + 1) / 17;
+                bytes.truncate(cut);
+                what = format!("cut to {cut}");
+            }
+            return (
+                LoadCase {
+                    api: s.api.clone(),
+                    ext: s.ext.clone(),
+                    bytes,
+                    origin: format!("{} NUL-free from {from}, {what}", s.name),
+                },
+                "nul-free",
             );
         }
         // random
@@ -300,7 +343,7 @@ impl Prop for C02 {
         "C02"
     }
     fn rule(&self) -> &'static str {
-        "seed corpus = output of every engine writer (14 formats, with/without SAUCE and comments, compressed/raw) on 6 generated documents incl. multi-layer/custom-font/large-palette IcyDraw, a feature ANSI file, PSF1/PSF2/raw fonts, the shipped TDF font, 5 palette formats, a bare SAUCE record. cases: (truncation) every prefix length of every seed (dense for small files and in header/tail regions, strided beyond); (byte-corruption) every byte of the first 160 and last 140 bytes x {0,1,0x7F,0x80,0xFF,+1,-1}; (cross-extension) every seed under 27 extensions incl. unknown and upper-case; (grammar) token streams in the grammar of the format's own emulation (ANSI incl. modes/margins/macros, Avatar, PCBoard, Ctrl-A, Renegade, PETSCII, ATASCII, ASCII) loaded as files, with and without state prefix and SAUCE tail; (random) SAUCE tails from field extremes, structure-aware IcyDraw chunk mutation (decode zTXt, mutate payload, re-encode with valid CRC), LE field extremes, splices, inserts, deletes, repeats, pure random. Each case is one call of Buffer::from_bytes / SauceData::extract / BitFont::from_bytes / TheDrawFont::from_tdf_bytes / Palette::load_palette|import_palette under catch_unwind. distinct_nontrivial = distinct (api, extension, class, result, size, layers) fingerprints"
+        "seed corpus = output of every engine writer (14 formats, with/without SAUCE and comments, compressed/raw) on 6 generated documents incl. multi-layer/custom-font/large-palette IcyDraw, a feature ANSI file, PSF1/PSF2/raw fonts, the shipped TDF font, 5 palette formats, a bare SAUCE record. cases: (truncation) every prefix length of every seed (dense for small files and in header/tail regions, strided beyond); (byte-corruption) every byte of the first 160 and last 140 bytes x {0,1,0x7F,0x80,0xFF,+1,-1}; (cross-extension) every seed under 27 extensions incl. unknown and upper-case; (grammar) token streams in the grammar of the format's own emulation (ANSI incl. modes/margins/macros, Avatar, PCBoard, Ctrl-A, Renegade, PETSCII, ATASCII, ASCII) loaded as files, with and without state prefix and SAUCE tail; (nul-free) every seed with all 0x00 bytes after offset 0/8/16/24/32/48/64 replaced by 0xFF, combined with each of the next 40 bytes set to 0xFF/0xD1/0x80 or one of 16 cuts (terminator scans that run off the end); (random) SAUCE tails from field extremes, structure-aware IcyDraw chunk mutation (decode zTXt, mutate payload, re-encode with valid CRC), LE field extremes, splices, inserts, deletes, repeats, pure random. Each case is one call of Buffer::from_bytes / SauceData::extract / BitFont::from_bytes / TheDrawFont::from_tdf_bytes / Palette::load_palette|import_palette under catch_unwind. distinct_nontrivial = distinct (api, extension, class, result, size, layers) fingerprints"
     }
     fn meta(&self, _ctx: &Ctx) -> Value {
         json!({"floor_evaluations": 20000, "floor_distinct": 300, "plain_pass": "quick",
@@ -330,7 +373,13 @@ impl Prop for C02 {
         self.n_flip = self.flip_offsets.iter().map(|v| v.len() as u64).sum::<u64>() * 7;
         self.n_cross = (self.seeds.len() * ALL_EXTS.len()) as u64;
         self.n_grammar = ctx.tier.pick(40_000, 1_000_000);
-        self.n_trunc + self.n_flip + self.n_cross + self.n_grammar + ctx.tier.pick(60_000, 3_000_000)
+        self.n_nulfree = self.seeds.len() as u64 * NULFREE_FROM.len() as u64 * (40 * 3 + 16);
+        if std::env::var_os("VERIF_C02_SEEDS").is_some() {
+            for s in &self.seeds {
+                eprintln!("seed {} api={} ext={} len={}", s.name, s.api, s.ext, s.bytes.len());
+            }
+        }
+        self.n_trunc + self.n_flip + self.n_cross + self.n_grammar + self.n_nulfree + ctx.tier.pick(60_000, 3_000_000)
     }
     fn run_case(&mut self, ctx: &mut Ctx, k: u64) {
         let (case, class) = self.case_for(ctx, k);
